@@ -169,6 +169,16 @@ var resets []func()
 
 func RegisterReset(pkg string, f func()) { resets = append(resets, f) }
 
+// ResetPackages re-initialises the package-level state of every rewritten
+// package now. Worlds call it before they compute an isolated reference
+// result at the end of a run, so that the reference cannot inherit a cache, a
+// memo table or a pool from the run it is compared with.
+func ResetPackages() {
+	for _, f := range resets {
+		f()
+	}
+}
+
 // Epoch of simulated time: 2023-08-16T00:35:15Z in Unix nanoseconds.
 const epochNanos int64 = 1692146115 * 1e9
 
